@@ -74,7 +74,16 @@ def fold(e, env, pows):
         key = (bits(a), bits(b))
         if key not in pows:
             raise BErr("POW-NOT-LOGGED")
-        return struct.unpack("<d", struct.pack("<Q", pows[key]))[0]
+        logged = struct.unpack("<d", struct.pack("<Q", pows[key]))[0]
+        # the log is the implementation's own powf: it is an oracle for the VALUE of a power, not for whether ^ IS the
+        # power function - that is decided against the C library's pow, which f64::powf is on this platform
+        try:
+            ref = math.pow(a, b)
+        except (OverflowError, ValueError):
+            ref = None
+        if ref is not None and bits(ref) != bits(logged) and not (ref != ref and logged != logged):
+            raise BErr("POW-LOG-WRONG")
+        return logged
     if isinstance(a, bytes) or isinstance(b, bytes):
         raise BErr("TypeMismatch")
     if op == "+":
@@ -189,6 +198,9 @@ def run_c02(chk):
             werr = None
         except BErr as ex:
             want, werr = None, str(ex)
+        if werr == "POW-LOG-WRONG":
+            chk.fail("pow-value", f"PRINT {text}: a logged power is not pow() of its operands", rep)
+            return
         if werr == "POW-NOT-LOGGED":
             chk.fail("pow-placement", f"PRINT {text}: the fold needs a power the implementation never computed (precedence/grouping of ^ differs)", rep)
             return
@@ -246,6 +258,17 @@ def run_c02(chk):
                     one(e, txt)
                     chk.case(txt, sample={"expr": txt})
     chk.count("boundary-operand-pairs", count[0] - c0)
+    # ^ is the power function for every operand pair, whole exponents included (missed seeded change C02-mut7: a powi fast
+    # path for whole exponents differs from pow in the last bits for bases that are not exactly representable)
+    c0 = count[0]
+    for a in (".3", "1.1", ".1", "2.5", "7", "0", "1.0000001", "123456.789", ".000015"):
+        for b in ("3", "10", "2", ".5", "0", "1", "31", "1000", "2147483648", "7.5"):
+            for e in (("bin", "^", ("num", a), ("num", b)), ("bin", "^", ("num", a), ("un", "-", ("num", b))),
+                      ("bin", "^", ("paren", ("un", "-", ("num", a))), ("num", b)), ("bin", "<", ("bin", "^", ("num", a), ("num", b)), ("num", ".027"))):
+                txt = render(e, rng)
+                one(e, txt)
+                chk.case(txt, sample={"expr": txt})
+    chk.count("power-operand-pairs", count[0] - c0)
     n = 1200 if chk.tier == "quick" else 60000
     for i in range(n):
         r = rng.fork(("c02", i))
